@@ -75,6 +75,25 @@ def _inputs(ctx):
                         continue
                     ins.append({"id": "a%d" % n, "lines": _one_caption(body), "doubled": dbl})
                     n += 1
+    # blanks that a mid-row code or an italic preamble leaves in a text node of their own: in front of
+    # the row's first visible character, and between two mid-row codes
+    def ch(a, b=0):
+        return {"k": "CH", "a": ord(a), "b": ord(b) if b else 0}
+    SPC = {"k": "CH", "a": 32, "b": 32}
+    for col in (0, 4):
+        for row2 in (None, 15):
+            shapes = [[{"k": "PAC", "r": 14, "c": col, "i": False}, SPC, {"k": "MID", "i": True}, ch("A", "B")],
+                      [{"k": "PAC", "r": 14, "c": 0, "i": True}, SPC, SPC, {"k": "MID", "i": False}, ch("C", "D")],    # (an italic preamble has no indent)
+                      [{"k": "PAC", "r": 14, "c": 0, "i": True}, ch("A", "B"), {"k": "MID", "i": False}, {"k": "MID", "i": True}, ch("C", "D")],
+                      [{"k": "PAC", "r": 14, "c": col, "i": False}, ch("A", "B"), {"k": "MID", "i": True}, SPC, {"k": "MID", "i": False}, ch("C", "D")],
+                      [{"k": "PAC", "r": 14, "c": col, "i": False}, SPC, ch("A", "B")],
+                      [{"k": "PAC", "r": 14, "c": col, "i": False}, {"k": "CH", "a": 32, "b": 0}, {"k": "MID", "i": True}, ch("A", "B"), {"k": "MID", "i": False}, SPC, ch("C")]]
+            for body in shapes:
+                if row2:
+                    body = body + [{"k": "PAC", "r": row2, "c": 0, "i": False}, SPC, {"k": "MID", "i": True}, ch("E", "F")]
+                for dbl in (False, True):
+                    ins.append({"id": "ws%d" % n, "lines": _one_caption(body), "doubled": dbl})
+                    n += 1
     codes = [("CH", c) for c in sorted(basic) if c != 32] + [("SP", c) for c in sorted(special) if c != 32] + \
             [("EXT", c) for c in sorted(ext)]
     for kind, cp in codes:
